@@ -192,8 +192,9 @@ def write_evidence(pid, tier, base, results, wall, violations, known_hits, prop,
     }
     if extra:
         ev["coverage"].update(extra)
-    os.makedirs(os.path.join(VERIF, "evidence"), exist_ok=True)
-    with open(os.path.join(VERIF, "evidence", pid + ".json"), "w") as f:
+    evdir = os.environ.get("CRYOSIM_EVIDENCE_DIR") or os.path.join(VERIF, "evidence")
+    os.makedirs(evdir, exist_ok=True)
+    with open(os.path.join(evdir, pid + ".json"), "w") as f:
         json.dump(ev, f, indent=1, sort_keys=True, default=str)
     return ev
 
@@ -247,12 +248,13 @@ def cmd_check(args):
         else:
             new.append(((clause, sig), rs))
     rc = 0
-    os.makedirs(os.path.join(VERIF, "replays"), exist_ok=True)
+    rdir = os.environ.get("CRYOSIM_REPLAY_DIR") or os.path.join(VERIF, "replays")
+    os.makedirs(rdir, exist_ok=True)
     for (clause, sig), rs in new:
         rs.sort(key=lambda r: len(r["trace"]["steps"]))
         trace = rs[0]["trace"]
         mini, ok = core.minimise(prop, trace, budget_s=60.0 if tier == "quick" else 180.0)
-        path = os.path.join(VERIF, "replays", "%s-%s-%d.json" % (pid, _slug(clause + "-" + sig), trace["seed"]))
+        path = os.path.join(rdir, "%s-%s-%d.json" % (pid, _slug(clause + "-" + sig), trace["seed"]))
         with open(path, "w") as f:
             json.dump(mini, f, indent=1, default=str)
         # the replay file must reproduce in a fresh interpreter before it is reported
